@@ -25,6 +25,8 @@ def plain_value(rng, d, c, allow_inner=True):
 
 def gen_value(rng, d, c):
     r = rng.random()
+    if r < 0.03:
+        return rng.pick(["L" * 300, "w" * 1100, "ab" * 1500])       # long single-line values (far below BUFSIZ)
     if r < 0.12:
         return rng.pick([None, ""])
     if r < 0.80 or d == " ":
@@ -99,8 +101,13 @@ def build_plans(world):
     ops.append({"op": "write", "k": 0, "dir": "$ROOT/out", "name": "w.conf", "readback": True, "tag": "write"})
     ops.append({"op": "readFile", "o": 1, "path": "$ROOT/out/w.conf", "delim": d, "comment": c, "tag": "reread"})
     ops.append({"op": "dump", "k": 1, "ext": True, "tag": "after"})
+    # the object is not used up by a write: a second file written from it must read back identically, too
+    ops.append({"op": "write", "k": 0, "dir": "$ROOT/out", "name": "w2.conf", "readback": True, "tag": "write2"})
+    ops.append({"op": "readFile", "o": 2, "path": "$ROOT/out/w2.conf", "delim": d, "comment": c, "tag": "reread2"})
+    ops.append({"op": "dump", "k": 2, "ext": True, "tag": "after2"})
     ops.append({"op": "free", "k": 0})
     ops.append({"op": "free", "k": 1})
+    ops.append({"op": "free", "k": 2})
     return [{"cfg": world["cfg"], "tree": tree, "ops": ops}]
 
 
@@ -148,6 +155,11 @@ def check(world, plans, results):
         v.fail("reread:rc", "reading the written file failed with %r; written bytes: %r" % (rr["rc"], wr.get("bytes", "")[:200]))
         return v
     after = view(tagged(plan, res, "after"))
+    w2, rr2 = tagged(plan, res, "write2"), tagged(plan, res, "reread2")
+    if w2["rc"] != 0 or rr2["rc"] != 0:
+        v.fail("second-write", "second write of the same object / its read-back failed: %r / %r" % (w2["rc"], rr2["rc"]))
+    elif view(tagged(plan, res, "after2")) != after:
+        v.fail("second-write", "a second file written from the same object reads back differently from the first: bytes %r vs %r" % (wr.get("bytes", "")[:200], w2.get("bytes", "")[:200]))
     if set(before) != set(after):
         v.fail("sections", "key-bearing sections differ: before %r after %r; written: %r" % (sorted(map(str, before)), sorted(map(str, after)), wr.get("bytes", "")[:300]))
     else:
